@@ -223,12 +223,15 @@ def hasDup : List Nat → Bool
   | [] => false
   | x :: xs => xs.contains x || hasDup xs
 
+/-- the name loop of `parseDNSSL`: an empty name (id 0) or a name seen before ends it with an error -/
+def hasDupOrEmpty (names : List Nat) : Bool := names.contains 0 || hasDup names
+
 /-- `parseDNSSL` -/
 def parseDNSSL (d : RawDNSSL) (maxInterval : Dur) : Option Plugin := do
   let lifetime ← parseDuration d.lifetime (3 * maxInterval)
   if !lifetimeInRange lifetime then none
   if d.names.isEmpty then none
-  if hasDup d.names then none
+  if hasDupOrEmpty d.names then none
   pure (.dnssl lifetime d.names)
 
 /-- `plugin.NewPREF64` lifetime as the pinned source computed it: 3·(max truncated to whole
